@@ -2,7 +2,9 @@
    Only statements here; every proof is `exact <lemma of Proofs/C07_Redact.v or Proofs/C07_Dump.v>`.
    Part 1: api.redactCredentials on the heap model of Lib/Heap.v (strings are opaque tokens: 0 = "",
    1 = "<redacted>"); redact = C11's repaired deepClone followed by `if x != "" { x = "<redacted>" }` on
-   every password slot of the copy. Part 2: httpp.dumpRequest on byte strings. *)
+   every password slot of the copy. Part 2: httpp.dumpRequest on byte strings; a request carries its body
+   READER (the bytes it delivers and how the stream ends: EOF or a non-EOF error), so every theorem about
+   `dump` also covers the requests whose body cannot be read. *)
 From Coq Require Import List ZArith Bool.
 Require Import MTX.Lib.Heap MTX.Model.C11_Clone MTX.Model.C07_Redact MTX.Model.C07_Dump
                MTX.Proofs.C07_Redact MTX.Proofs.C07_Dump.
@@ -35,7 +37,8 @@ Theorem C07_redaction_complete : forall h c s z,
 Proof. exact redact_in_harmless. Qed.
 Print Assumptions C07_redaction_complete.
 
-(* the value of a header of the redaction set cannot influence the dump *)
+(* the value of a header of the redaction set cannot influence the dump - whatever the body reader does
+   (r ranges over all requests, including those whose body fails to be read: r_bend r <> EndEOF) *)
 Theorem C07_dump_noninterference : forall k v v' r, is_redacted k = true ->
   dump (set_header k v r) = dump (set_header k v' r).
 Proof. exact dump_noninterference. Qed.
@@ -47,11 +50,43 @@ Theorem C07_dump_values_hidden : forall k vs vs' r rest, is_redacted k = true ->
 Proof. exact dump_values_hidden. Qed.
 Print Assumptions C07_dump_values_hidden.
 
-(* the set is what protects: any other header is written verbatim *)
-Theorem C07_dump_shows_other : forall k v r, is_redacted k = false -> r_hdr r = [(k, [v])] ->
+(* the set is what protects: any other header is written verbatim (when the body can be read) *)
+Theorem C07_dump_shows_other : forall k v r, body_fails r = false -> is_redacted k = false -> r_hdr r = [(k, [v])] ->
   dump r = dump_head r ++ (k ++ [58; 32] ++ v ++ crlf) ++ dump_tail r.
 Proof. exact dump_shows_other. Qed.
 Print Assumptions C07_dump_shows_other.
+
+(* a request whose body cannot be read (client gone in the middle of the upload, body shorter than
+   Content-Length, malformed chunked encoding, ...) is not dumped at all: no header, no request line *)
+Theorem C07_dump_failed_body_empty : forall r, body_fails r = true -> dump r = [].
+Proof. exact dump_failed_body. Qed.
+Print Assumptions C07_dump_failed_body_empty.
+
+(* ... and these are exactly the readers that return a non-EOF error before max_body+1 bytes went through
+   the LimitReader, or together with byte number max_body+1 *)
+Theorem C07_body_fails_iff : forall r, body_fails r = true <->
+  (r_bend r = EndErr /\ Z.of_nat (length (r_body r)) < peek_limit) \/
+  (r_bend r = EndErrWithLast /\ Z.of_nat (length (r_body r)) <= peek_limit).
+Proof. exact body_fails_iff. Qed.
+Print Assumptions C07_body_fails_iff.
+
+(* an error past the first max_body+1 bytes is never seen: the dump does not depend on how the stream ends *)
+Theorem C07_dump_error_past_cap : forall m u j n h hd b e e', peek_limit < Z.of_nat (length b) ->
+  dump (mkReq m u j n h hd b e) = dump (mkReq m u j n h hd b e').
+Proof. exact dump_error_past_cap. Qed.
+Print Assumptions C07_dump_error_past_cap.
+
+(* the line handlerLogger.ServeHTTP writes into the debug log for the request, "[conn <addr>] [c->s] <dump>":
+   same noninterference, for every request and body reader *)
+Theorem C07_log_noninterference : forall addr k v v' r, is_redacted k = true ->
+  log_request addr (set_header k v r) = log_request addr (set_header k v' r).
+Proof. exact log_noninterference. Qed.
+Print Assumptions C07_log_noninterference.
+
+Theorem C07_log_values_hidden : forall addr k vs vs' r rest, is_redacted k = true -> length vs = length vs' ->
+  log_request addr (with_hdr r ((k, vs) :: rest)) = log_request addr (with_hdr r ((k, vs') :: rest)).
+Proof. exact log_values_hidden. Qed.
+Print Assumptions C07_log_values_hidden.
 
 (* net/http hands header names over canonicalised: whatever letter case the client used, a name of the set
    arrives spelled as in the set (so the exact-match lookup of dumpRequest finds it) *)
@@ -98,7 +133,7 @@ Proof. vm_compute. split; reflexivity. Qed.
    the same value in a header outside the set is dumped as it is *)
 Example C07_dump_example :
   let secret := [66;97;115;105;99;32;99;50;86;106;99;109;86;48] in
-  let r k := mkReq [71;69;84] [47;120] 1 1 [104] [(canon_key k, [secret])] [] in
+  let r k := mkReq [71;69;84] [47;120] 1 1 [104] [(canon_key k, [secret])] [] EndEOF in
   dump (r [97;85;84;72;79;82;73;90;65;84;73;79;78])
     = [71;69;84;32;47;120;32;72;84;84;80;47;49;46;49;13;10;72;111;115;116;58;32;104;13;10;
        65;117;116;104;111;114;105;122;97;116;105;111;110;58;32;60;114;101;100;97;99;116;101;100;62;13;10;13;10]
@@ -106,3 +141,15 @@ Example C07_dump_example :
     = [71;69;84;32;47;120;32;72;84;84;80;47;49;46;49;13;10;72;111;115;116;58;32;104;13;10;
        88;45;84;111;107;101;110;58;32] ++ secret ++ [13;10;13;10].
 Proof. vm_compute. split; reflexivity. Qed.
+
+(* a POST announcing more body than the client sends (the reader delivers "v=0\r\n", then a non-EOF error):
+   nothing is logged for it, whatever its headers; the same request with a clean end is dumped, redacted *)
+Example C07_dump_failed_body_example :
+  let secret := [66;97;115;105;99;32;99;50;86;106;99;109;86;48] in
+  let r e := mkReq [80;79;83;84] [47;120] 1 1 [104] [([67;111;111;107;105;101], [secret])] [118;61;48;13;10] e in
+  body_fails (r EndErr) = true /\ body_fails (r EndErrWithLast) = true /\ body_fails (r EndEOF) = false
+  /\ dump (r EndErr) = [] /\ dump (r EndErrWithLast) = []
+  /\ dump (r EndEOF)
+    = [80;79;83;84;32;47;120;32;72;84;84;80;47;49;46;49;13;10;72;111;115;116;58;32;104;13;10;
+       67;111;111;107;105;101;58;32;60;114;101;100;97;99;116;101;100;62;13;10;13;10;118;61;48;13;10].
+Proof. vm_compute. repeat split. Qed.
